@@ -16,7 +16,7 @@ use super::errors::ExtractPathParamsError;
 use super::{PathParams, RawPathParams};
 
 /// (raw value as it appears in the URL, the text the client encoded; None = not UTF-8 once decoded)
-const TABLE: [(&str, Option<&str>); 8] = [
+const TABLE: [(&str, Option<&str>); 9] = [
     ("a", Some("a")),
     ("%62", Some("b")),
     ("c%2Fd", Some("c/d")),
@@ -25,6 +25,8 @@ const TABLE: [(&str, Option<&str>); 8] = [
     ("", Some("")),
     ("x%41y", Some("xAy")),
     ("%E2%82%AC", Some("\u{20AC}")),
+    // a literal '+' after an escape: in a path it is a plus sign, not a space
+    ("a%20+b", Some("a +b")),
 ];
 const KEYS: [&str; 3] = ["k0", "k1", "k2"];
 
@@ -111,7 +113,7 @@ fn c15x_extract_pairing_in_order() {
 
 // @tier quick
 // @obligation two path parameters (String fields), the solver choosing among constant call sites that vary the order of arrival and which value is percent-encoded: each field holds exactly the text the client encoded under ITS OWN name - a decoded value is never filed under the other parameter
-// @bounds 2 parameters in reverse order; first / second / both encoded, an encoded value between plain text (\"x%41y\")
+// @bounds 2 parameters in reverse order; first / second / both encoded, an encoded value between plain text (\"x%41y\"), a literal plus sign after an escape (\"a%20+b\")
 // @functions PathParams::extract, RawPathParams::iter, EncodedParamValue::decode, PathDeserializer::new
 // @timeout 1500
 // @mem 16
@@ -124,7 +126,7 @@ fn c15x_extract_pairing_reversed() {
         0 => drop(run_two((1, 1), (0, 0))),
         1 => drop(run_two((1, 0), (0, 1))),
         2 => drop(run_two((1, 1), (0, 2))),
-        _ => drop(run_two((1, 6), (0, 0))),
+        _ => drop(run_two((1, 8), (0, 6))),
     };
     kani::cover!(c == 1, "plain value first, encoded second, reversed order");
 }
